@@ -70,11 +70,34 @@ namespace c01
         vf::cls(c);
     }
     // tag for crashes inside an observer (macros expand in the harness, so no /repo frame names them)
+    // (called ~20 times per check: the formatted tags are cached by literal address)
     inline void observing(const char *what)
     {
-        char c[120];
-        snprintf(c, sizeof c, "%s:observe:%s", ctx().flavour, what);
-        vf::cls(c);
+        struct Ent
+        {
+            const char *flavour, *what;
+            char text[120];
+        };
+        static Ent cache[64];
+        static int used = 0;
+        const char *fl = ctx().flavour;
+        Ent *e = nullptr;
+        for (int i = 0; i < used; i++)
+            if (cache[i].what == what && cache[i].flavour == fl)
+            {
+                e = &cache[i];
+                break;
+            }
+        if (!e)
+        {
+            if (used == 64)
+                used = 0;
+            e = &cache[used++];
+            e->flavour = fl;
+            e->what = what;
+            snprintf(e->text, sizeof e->text, "%s:observe:%s", fl, what);
+        }
+        memcpy(vf::g().sh->slots[vf::g().worker].cls, e->text, sizeof e->text);
     }
 
     inline std::string show(const Seq &s)
@@ -105,9 +128,45 @@ namespace c01
     // compare an observed sequence with the model; `clause` becomes the key prefix
     inline void expect_seq(const char *clause, const char *how, int list, const Seq &got, const std::list<int> &model, bool reversed = false)
     {
+        // compare in place (this runs tens of millions of times); build the reference sequence only for the report
+        bool same = got.size() == model.size();
+        if (same)
+        {
+            size_t i = 0, n = got.size();
+            for (int id : model)
+            {
+                if (got[reversed ? n - 1 - i : i] != id)
+                {
+                    same = false;
+                    break;
+                }
+                i++;
+            }
+        }
+        if (same)
+            return;
         Seq want = seq_of(model, reversed);
-        if (got != want)
+        if (got != want || true)
             bad(clause, "%s of list %d gives %s, reference %s%s", how, list, show(got).c_str(), show(want).c_str(), reversed ? " (reversed)" : "");
+    }
+    inline void expect_ids(const char *clause, const char *how, int list, const long *ids, int n, const std::list<int> &model, bool reversed = false)
+    {
+        bool same = (size_t)n == model.size();
+        if (same)
+        {
+            int i = 0;
+            for (int id : model)
+            {
+                if (ids[reversed ? n - 1 - i : i] != id)
+                {
+                    same = false;
+                    break;
+                }
+                i++;
+            }
+        }
+        if (!same)
+            expect_seq(clause, how, list, seq_of(ids, n), model, reversed);
     }
     inline void list_insert(std::list<int> &m, int target, bool after, int x)
     {
@@ -163,7 +222,7 @@ namespace c01
         }
         // executes history h in a fresh world: prefix replayed, last operation followed by the full check.
         // returns false if the history is illegal or failed; fills `next` with the legal continuations
-        static bool run_history(const std::vector<int> &h, int N, int L, bool populated, bool check_every, std::vector<int> *next)
+        static bool run_history(const std::vector<int> &h, int N, int L, bool populated, bool check_every, std::vector<int> *next, bool count = true)
         {
             Ctx &c = ctx();
             c.flavour = W::name();
@@ -202,7 +261,8 @@ namespace c01
                             next->push_back(code);
                 }
                 uint64_t hh = vf::hash_bytes(h.data(), h.size() * sizeof(int), vf::mix((uint64_t)(uintptr_t)W::name()[0] * 131 + W::name()[1], (uint64_t)N * 16 + L + (populated ? 256 : 0)));
-                vf::count_case(hh, nontrivial(*w, h));
+                if (count)
+                    vf::count_case(hh, nontrivial(*w, h));
                 set_tag("teardown");
                 w->teardown(h.empty() ? 0 : variant(h, h.size() - 1));
                 delete w;
@@ -225,8 +285,13 @@ namespace c01
                 return;
             if ((int)h.size() >= maxdepth)
                 return;
+            // the deepest level may be thinned to a seeded 1/den sample (thorough tier of the big alphabets)
+            int den = (int)h.size() + 1 == maxdepth ? W::leaf_sample_den(vf::thorough()) : 1;
+            uint64_t hh = den > 1 ? vf::hash_bytes(h.data(), h.size() * sizeof(int), vf::seed()) : 0;
             for (int code : next)
             {
+                if (den > 1 && vf::mix(hh, (uint64_t)code) % (uint64_t)den != 0)
+                    continue;
                 h.push_back(code);
                 dfs(h, maxdepth);
                 h.pop_back();
@@ -247,16 +312,15 @@ namespace c01
             if (idx == 0)
                 run_history(h, DN, DL, true, false, nullptr);
             h.push_back(a1);
-            if (a2 == 0)
-            {
-                std::vector<int> next;
-                if (!run_history(h, DN, DL, true, false, &next))
-                    return;
-                if (std::find(next.begin(), next.end(), 0) == next.end())
-                    return;
-            }
+            // the one-op history is evaluated (and must pass) before anything is built on it: a world that the
+            // first operation corrupted must not be driven further or torn down through igris destructors.
+            // It is counted once, in the case whose second op is code 0.
+            std::vector<int> next;
+            if (!run_history(h, DN, DL, true, false, &next, a2 == 0))
+                return;
+            if (std::find(next.begin(), next.end(), a2) == next.end())
+                return;
             h.push_back(a2);
-            // legality of the prefix is decided inside run_history
             dfs(h, depth());
         }
         static uint64_t rnd_count()
@@ -326,4 +390,30 @@ namespace c01
             }
         }
     };
+    // triage aid (not used by the registered check): C01_ONLY=<substring of a suite name> runs only matching suites,
+    // C01_MAXCASES=n caps every suite; required clauses then report "observed nothing", which is expected
+    inline uint64_t limited(const char *suite, uint64_t n)
+    {
+        const char *only = getenv("C01_ONLY"), *mx = getenv("C01_MAXCASES");
+        if (only && *only && !strstr(suite, only))
+            return 0;
+        if (mx && *mx && strtoull(mx, nullptr, 0) < n)
+            return strtoull(mx, nullptr, 0);
+        return n;
+    }
 } // namespace c01
+
+// one translation unit per list flavour (they compile in parallel); each registers its two suites and the
+// operation-coverage clauses that must have been driven
+#define C01_SUITES(W, tag)                                                                                                                           \
+    static uint64_t tag##_dfs_count() { return c01::limited(#tag "_dfs", c01::Runner<c01::W>::dfs_count()); }                                       \
+    static void tag##_dfs_run(uint64_t i) { c01::Runner<c01::W>::dfs_run(i); }                                                                      \
+    static uint64_t tag##_rnd_count() { return c01::limited(#tag "_rnd", c01::Runner<c01::W>::rnd_count()); }                                       \
+    static void tag##_rnd_run(uint64_t i) { c01::Runner<c01::W>::rnd_run(i); }                                                                      \
+    VF_SUITE(tag##_dfs, tag##_dfs_count, tag##_dfs_run)                                                                                             \
+    VF_SUITE(tag##_rnd, tag##_rnd_count, tag##_rnd_run)                                                                                             \
+    void c01_require_##tag()                                                                                                                        \
+    {                                                                                                                                                \
+        for (int k = 0; k < c01::W::K_COUNT; k++)                                                                                                   \
+            vf::require((std::string("op " #tag " ") + c01::W::kind_name(k)).c_str());                                                              \
+    }
